@@ -14,6 +14,9 @@ from ..engines import Facts, key, key_vars
 from ..facts import AnalysisBroken
 
 ENTRY = ("cp_ecdsa_sig", "cp_ecdsa_ver")
+# signer / verifier pairs whose digest truncation must agree (TRUNC-SIB); the EC-Schnorr pair follows no external
+# standard, so only the agreement is decided for it
+SIB_PAIRS = (("cp_ecdsa_sig", "cp_ecdsa_ver"), ("cp_ecss_sig", "cp_ecss_ver"))
 NEUTRAL = {"bn_rsh", "bn_bits", "bn_read_bin", "bn_new", "bn_null", "bn_free", "bn_size_bin", "bn_is_zero", "bn_sign"}
 M = 1 << 64
 
@@ -167,8 +170,85 @@ def normX(k, X):
     return k
 
 
+def shift_signatures(ctx, prog, fn):
+    """{(shift amount, length decoded) with the order variable canonicalised} over the truncation sites of fn and its static helpers"""
+    out = set()
+    scope = [fn]
+    for el in fn.all_elements():
+        for c in ir.calls_in(fn, el.e):
+            g = prog.get(c[1], near=fn) if c[1] else None
+            if g is not None and g.static and g not in scope:
+                scope.append(g)
+    for f in scope:
+        g = ctx.xcfg(prog, f)
+
+        def gen(node, s, pre, f=f):
+            o = []
+            for c in ir.calls_in(f, node.el.e):
+                if c[1] == "bn_read_bin" and len(c[2]) == 3:
+                    E = key(f, c[2][0])
+                    if isinstance(E, tuple) and E[0] == "v":
+                        o.append(("ev", "dig", E, key(f, c[2][2])))
+            return o
+        F = Facts(prog, g, gen=gen, mark_thrown=True)
+        for nd in g.nodes:
+            if nd.kind != "el" or nd.proto:
+                continue
+            st = F.IN.get(nd)
+            if st is None or st is engines.UNIVERSE:
+                continue
+            for c in ir.calls_in(f, nd.el.e):
+                if c[1] != "bn_rsh" or len(c[2]) != 3:
+                    continue
+                E = key(f, c[2][0])
+                digs = [a for a in st if a[0] == "ev" and a[1] == "dig" and a[2] == E]
+                if not digs:
+                    continue
+                Lk = digs[0][3]
+                S = subst_defs(key(f, c[2][2]), st, keep=key_vars_k(Lk))
+                Xs = bits_args(S)
+                X = next(iter(Xs)) if len(Xs) == 1 else None
+                Ldef = Lk
+                for a in st:
+                    if a[0] == "rel" and a[1] == Lk and a[2] == "==":
+                        Ldef = subst_defs(a[3], st)
+                # the length variable itself is canonicalised as well
+                def canon(k):
+                    if isinstance(k, tuple):
+                        if k == Lk:
+                            return ("L",)
+                        return tuple(canon(x) for x in k)
+                    return k
+                out.add((canon(normX(S, X)) if X is not None else canon(S), canon(normX(Ldef, X)) if X is not None else canon(Ldef)))
+    return out
+
+
+def rule_trunc_sib(ctx, prog, chk):
+    n = 0
+    byname = {}
+    for f in prog.all:
+        byname.setdefault(f.name.split("__")[-1], []).append(f)
+    for a, b in SIB_PAIRS:
+        for fa in byname.get(a, ()):
+            if fa.name.startswith("bad_"):
+                continue
+            for fb in byname.get(b, ()):
+                # a variant is judged against the conforming / the library's sibling
+                if fb.name.split("__")[:-1] != fa.name.split("__")[:-1] and not (fb.name.startswith("bad_") and fa.name.startswith("ok_")):
+                    continue
+                sa, sb = shift_signatures(ctx, prog, fa), shift_signatures(ctx, prog, fb)
+                n += 1
+                if sa == sb:
+                    chk.ok("TRUNC-SIB", fb, "shift", "signer and verifier truncate the digest alike (%d site(s))" % len(sa), line=fb.line)
+                else:
+                    chk.fail("TRUNC-SIB", fb, "shift", "%s and %s truncate the digest differently (length decoded / shift amount): signatures made on curves whose order is shorter than the digest "
+                             "do not verify, which the suite's curve (order as long as the digest) never exercises" % (fa.name, fb.name), line=fb.line)
+    return n
+
+
 def analyse(ctx, prog, chk):
     n = 0
+    rule_trunc_sib(ctx, prog, chk)
     entries = [f for f in prog.all if f.name.split("__")[-1] in ENTRY]
     for top in entries:
         scope = [top]
